@@ -73,7 +73,7 @@ func genProgram(t *rapid.T, shared []string) (src string, interns int, reads boo
 		if len(shared) > 0 && rapid.IntRange(0, 2).Draw(t, "useShared") == 0 {
 			name = rapid.SampledFrom(shared).Draw(t, "shared")
 		}
-		switch rapid.IntRange(0, 12).Draw(t, "kind") {
+		switch rapid.IntRange(0, 13).Draw(t, "kind") {
 		case 0:
 			stmts = append(stmts, fmt.Sprintf("%s := %d", name, i))
 			interns++
@@ -114,6 +114,10 @@ func genProgram(t *rapid.T, shared []string) (src string, interns int, reads boo
 		case 10:
 			stmts = append(stmts, fmt.Sprintf("p%d := {a: 1}.bear({%s: m{.a}}).%s", i, name, name))
 			interns++
+		case 12:
+			// the shared not-implemented error object reached through the abstract props of Either, from different source positions
+			stmts = append(stmts, rapid.SampledFrom([]string{fmt.Sprintf("ab%d := 1.try.{|x| Either.A}.err.msg", i), fmt.Sprintf("ab%d := 1.try.{|x|\n\n Either.val}.err?", i), fmt.Sprintf("ab%d := {|| 1.try.{|x| Either.fmap}.err?}()", i),
+				fmt.Sprintf("ab%d := 1.try.{|x| _}.err?", i), fmt.Sprintf("ab%d := 1.try.{|x| raise _}.err.msg", i), fmt.Sprintf("w%d := {|| Either.or}\nab%d := 1.try.{|x| w%d()}.err?", i, i, i)}).Draw(t, "abstract"))
 		case 11:
 			// string operations that compile patterns: fresh valid and fresh invalid ones (whatever is memoised is written now)
 			pat := fresh(false)
